@@ -56,6 +56,7 @@ type vsAttempt struct {
 	fileIDs   []string
 	advance   time.Duration // clock advance by the client in mid-upload
 	advAfter  int           // after this many files
+	extended  bool          // overlapped an extended-lane fault (SQL statement failure, crash-restart): restricted oracle
 }
 
 type vsFileSpec struct {
@@ -112,6 +113,8 @@ type vsEnv struct {
 	lastSeq  map[string]int // day -> last sequence number allocated
 	failedIDs map[string]bool
 	queriesRun int
+	anchor    interface{ Close() error } // keeps the shared in-memory database alive across a crash-restart
+	restarts  int
 }
 
 var (
@@ -132,6 +135,9 @@ func (e *vsEnv) setup(personality int) {
 		r.Fail("harness", "db-open", "cannot open database: %v", err)
 	}
 	e.db = d
+	if c, err := e.sql.inner.Open(e.sql.dsn); err == nil {
+		e.anchor = c
+	}
 	db.VerifSetNow(e.now)
 	e.fs = newSimFS(r, personality)
 	e.auth = map[string]bool{}
@@ -164,6 +170,51 @@ func (e *vsEnv) teardown() {
 	if e.db != nil {
 		e.db.Close()
 	}
+	if e.anchor != nil {
+		e.anchor.Close()
+	}
+}
+
+// crashRestart kills the server incarnation (every seam of it fails from now on, open
+// transactions are rolled back by closing the connections) and starts a new one on the
+// same database and file store. Must be called by a task.
+func (e *vsEnv) crashRestart() {
+	r := e.r
+	r.Fault("server-crash-restart")
+	r.Logf("server crash")
+	e.tr.mu.Lock()
+	e.tr.dead = true
+	e.tr.mu.Unlock()
+	e.sql.dead.Store(true)
+	e.fs.mu.Lock()
+	e.fs.dead = true
+	e.fs.mu.Unlock()
+	// let the in-flight handlers run into the dead seams and unwind
+	for i := 0; i < 20000 && e.tr.inflight.Load() > 0; i++ {
+		sim.Blocked() // run only when nothing else can
+		sim.Yield("crash:drain")
+	}
+	if e.tr.inflight.Load() > 0 {
+		r.Fail("liveness", "handlers-stuck-after-crash", "%d request handlers did not finish after every seam started failing", e.tr.inflight.Load())
+	}
+	old := e.db
+	e.sql.dead.Store(false) // closing prepared statements goes through the driver
+	old.Close()
+	e.sdb = sql.OpenDB(simConnector{e.sql})
+	d, err := db.VerifOpen(e.sdb)
+	if err != nil {
+		r.Fail("liveness", "restart-fails", "the restarted server cannot open the database: %v", err)
+	}
+	e.db = d
+	e.app.DB = d
+	e.fs.mu.Lock()
+	e.fs.dead = false
+	e.fs.mu.Unlock()
+	e.tr.mu.Lock()
+	e.tr.dead = false
+	e.tr.mu.Unlock()
+	e.restarts++
+	r.Logf("server restarted")
 }
 
 func (e *vsEnv) newClient(name string) *vsClient {
@@ -340,7 +391,7 @@ func (e *vsEnv) settle(attempts []*vsAttempt, faultsOn bool) {
 	// --- per attempt
 	for _, a := range attempts {
 		ok := a.status == 200
-		if ok != (a.clientErr == nil) {
+		if ok != (a.clientErr == nil) && !a.extended {
 			r.Fail("client-view", "client-server-disagree", "%s: server answered %d %q but the client reported err=%v", a.client, a.status, clipS(a.body), a.clientErr)
 		}
 		created := e.fs.createdBy(a.client)
@@ -353,7 +404,7 @@ func (e *vsEnv) settle(attempts []*vsAttempt, faultsOn bool) {
 				if _, there := onDisk[f.name]; !f.closedOK && e.fs.inner != nil {
 					f.visible = there // the real directory is the ground truth
 				}
-				if !f.closedOK && f.visible {
+				if !f.closedOK && f.visible && !a.extended {
 					r.Fail("all-or-nothing", "failed-upload-leaves-file", "%s: upload failed (%d %q, fault %+v) but the file being written, %s, is still stored (%d bytes)", a.client, a.status, clipS(a.body), a.fault, f.name, len(f.buf))
 				}
 			}
@@ -757,6 +808,7 @@ func (e *vsEnv) clockStep(faultsOn bool) {
 
 func vsScenario(t *testing.T, r *sim.Run, s *sim.Sched, lane string, faultsOn bool, force *vsFault, census *vsCensus) {
 	T := r.T
+	extendedOn := lane == "faults+extended"
 	e := &vsEnv{t: t, r: r, s: s, T: T, lane: lane}
 	personality := fsObjectStore
 	if faultsOn {
@@ -779,6 +831,9 @@ func vsScenario(t *testing.T, r *sim.Run, s *sim.Sched, lane string, faultsOn bo
 	maxClients := 1
 	if lane != "seq" {
 		maxClients = 3
+	}
+	if extendedOn {
+		faultsOn = true
 	}
 	clients := []*vsClient{e.newClient("c1"), e.newClient("c2"), e.newClient("anon")}
 	nphases := 1 + T.Intn(5, "nphases")
@@ -820,10 +875,11 @@ func vsScenario(t *testing.T, r *sim.Run, s *sim.Sched, lane string, faultsOn bo
 			}
 			attempts = append(attempts, a)
 		}
-		if nc == 1 {
+		extra := 0
+		if nc == 1 && !(extendedOn && T.Intn(4, "extended-single") == 0) {
 			e.upload(clients[T.Intn(len(clients), "which-client")], attempts[0])
 		} else {
-			done := make(chan struct{}, nc+1)
+			done := make(chan struct{}, nc+3)
 			perm := T.Perm(len(clients), "client-perm")
 			for i, a := range attempts {
 				a, c := a, clients[perm[i]]
@@ -832,8 +888,29 @@ func vsScenario(t *testing.T, r *sim.Run, s *sim.Sched, lane string, faultsOn bo
 					e.upload(c, a)
 				})
 			}
+			// extended lane: a clean SQL statement failure or a server crash-restart somewhere in this phase
+			if extendedOn && T.Intn(3, "extended-fault") == 0 {
+				for _, a := range attempts {
+					a.extended = true
+				}
+				if T.Bool("crash") {
+					waitFor0 := T.Intn(400, "crash-after-steps")
+					extra++
+					s.Go("chaos", 2, func() {
+						defer func() { done <- struct{}{} }()
+						for i := 0; i < waitFor0; i++ {
+							sim.Yield("chaos:wait")
+						}
+						e.crashRestart()
+					})
+				} else {
+					e.sql.mu.Lock()
+					e.sql.failAt = e.sql.execN + T.Intn(15, "sql-fail-at")
+					e.sql.mu.Unlock()
+				}
+			}
 			// a concurrent reader adds interleaving pressure; its results are not compared mid-flight
-			waitFor := len(attempts)
+			waitFor := len(attempts) + extra
 			if T.Intn(3, "concurrent-reader") == 0 {
 				waitFor++
 				s.Go("reader", 2, func() {
@@ -848,7 +925,12 @@ func vsScenario(t *testing.T, r *sim.Run, s *sim.Sched, lane string, faultsOn bo
 			for i := 0; i < waitFor; i++ {
 				<-done
 			}
-			r.Hit("concurrent uploads on a shared database")
+			e.sql.mu.Lock()
+			e.sql.failAt = -1
+			e.sql.mu.Unlock()
+			if nc > 1 {
+				r.Hit("concurrent uploads on a shared database")
+			}
 		}
 		nAttempts += len(attempts)
 		if census != nil && ph == nphases-1 {
@@ -951,7 +1033,11 @@ var c20Engine = &sim.Engine{
 			vsRunLane(t, r, "enum", true, &f, nil)
 			return
 		}
-		vsRunLane(t, r, "faults", true, nil, nil)
+		if r.T.Intn(4, "extended-lane") == 0 {
+			vsRunLane(t, r, "faults+extended", true, nil, nil)
+		} else {
+			vsRunLane(t, r, "faults", true, nil, nil)
+		}
 	},
 	Extra: c20Enumerate,
 }
